@@ -146,6 +146,9 @@ pub(crate) struct LiveEvents<'a> {
     /// Set once a reader error has been reported. The input is truncated at that point, so
     /// nothing that the parser still has buffered may be served as a further document.
     io_failed: std::cell::Cell<bool>,
+    /// Where string input contains a NUL character, if it does. The parser takes NUL for the end
+    /// of the input, so everything from there on would be dropped without a word.
+    nul_in_input: Option<saphyr_parser::Marker>,
 }
 
 /// A single alias-replay stack frame (one active `*alias` expansion).
@@ -223,6 +226,8 @@ impl<'a> LiveEvents<'a> {
 
             error,
             io_failed: std::cell::Cell::new(false),
+            // The character stream of a reader reports a NUL as invalid data itself.
+            nul_in_input: None,
         }
     }
 }
@@ -276,6 +281,7 @@ impl<'a> LiveEvents<'a> {
             // Error field is provided but for string, nothing is ever reported
             error: Rc::new(RefCell::new(None)),
             io_failed: std::cell::Cell::new(false),
+            nul_in_input: input.find('\0').map(|at| nul_marker(&input[..at])),
         }
     }
 
@@ -818,13 +824,48 @@ impl<'a> LiveEvents<'a> {
 
     #[cold]
     fn io_error(&self) -> Result<(), Error> {
+        if let Some(marker) = self.nul_in_input {
+            return Err(Error::from_scan_error(ScanError::new_str(
+                marker,
+                "NUL character in the input",
+            )));
+        }
         if let Some(error) = self.error.take() {
             self.io_failed.set(true);
+            // A NUL character in reader input is reported like one in string input.
+            if let Some(nul) = error
+                .get_ref()
+                .and_then(|e| e.downcast_ref::<crate::buffered_input::NulInInput>())
+            {
+                return Err(Error::from_scan_error(ScanError::new_str(
+                    saphyr_parser::Marker::new(nul.chars, nul.line, nul.col),
+                    "NUL character in the input",
+                )));
+            }
             Err(Error::IOError { cause: error })
         } else {
             Ok(())
         }
     }
+}
+
+/// Position of a NUL character that follows `before` in string input.
+fn nul_marker(before: &str) -> saphyr_parser::Marker {
+    let mut line = 1;
+    let mut line_start = 0;
+    let bytes = before.as_bytes();
+    for (i, b) in bytes.iter().enumerate() {
+        // Breaks are LF, CRLF or a lone CR.
+        if *b == b'\n' || (*b == b'\r' && bytes.get(i + 1) != Some(&b'\n')) {
+            line += 1;
+            line_start = i + 1;
+        }
+    }
+    saphyr_parser::Marker::new(
+        before.chars().count(),
+        line,
+        before[line_start..].chars().count(),
+    )
 }
 
 impl<'de> Events<'de> for LiveEvents<'de> {
